@@ -71,6 +71,9 @@ type RBT struct {
 	vlogInvalid bool
 	dirty       bool
 	stages      []arena.MemDBCheckpoint
+	// lastCheckpoint is the latest checkpoint handed out by Checkpoint. Values logged before it must stay intact for
+	// RevertToCheckpoint, so they are never updated in place.
+	lastCheckpoint *arena.MemDBCheckpoint
 
 	// The lastTraversedNode stores addr in uint64 of the last traversed node.
 	// Compare to atomic.Pointer, atomic.Uint64 can avoid allocation so it's more efficient.
@@ -202,6 +205,8 @@ func (db *RBT) Cleanup(h int) {
 // Checkpoint returns a checkpoint of RBT.
 func (db *RBT) Checkpoint() *arena.MemDBCheckpoint {
 	cp := db.vlog.Checkpoint()
+	last := cp
+	db.lastCheckpoint = &last
 	return &cp
 }
 
@@ -216,6 +221,7 @@ func (db *RBT) RevertToCheckpoint(cp *arena.MemDBCheckpoint) {
 func (db *RBT) Reset() {
 	db.root = arena.NullAddr
 	db.stages = db.stages[:0]
+	db.lastCheckpoint = nil
 	db.dirty = false
 	db.vlogInvalid = false
 	db.size = 0
@@ -388,7 +394,7 @@ func (db *RBT) setValue(x MemdbNodeAddr, value []byte) {
 		oldVal = db.vlog.GetValue(x.vptr)
 	}
 
-	if len(oldVal) > 0 && db.vlog.CanModify(activeCp, x.vptr) {
+	if len(oldVal) > 0 && db.vlog.CanModify(activeCp, x.vptr) && db.vlog.CanModify(db.lastCheckpoint, x.vptr) {
 		// For easier to implement, we only consider this case.
 		// It is the most common usage in TiDB's transaction buffers.
 		if len(oldVal) == len(value) {
